@@ -66,3 +66,22 @@ M("c15-verify-unbounded", "C15", "verify-directory", (U, "            if tries >
 M("c15-benign-os-replace", "C15", "silent", (T, "shutil.move(name, outputpath)", "os.replace(name, outputpath)"))
 M("c16-check-then-act", "C16", "check-then-act", (L, "        try:\n            return self._uri_cache[key]\n        except KeyError:\n            pass", "        if key in self._uri_cache:\n            return self._uri_cache[key]"))
 M("c16-benign-with-lock", "C16", "silent", (L, "        self._mutex.acquire()\n        try:\n            try:\n                # try returning", "        self._mutex.acquire()\n        try:\n            try:\n                # (comment changed) try returning"))
+
+# ---------------------------------------------------------------- C13 / C05 (emission model)
+M("c13-filtered-pop-no-writer", "C13", "skeleton-typestate", (CG, '                    "finally:",\n                    "__M_buf, __M_writer = context._pop_buffer_and_writer()",\n                )\n\n            if callstack:', '                    "finally:",\n                    "__M_buf = context._pop_buffer()",\n                )\n\n            if callstack:'))
+M("c13-calltag-no-disarm", "C13", "skeleton-typestate", (CG, '            "finally:",\n            "context.caller_stack.nextcaller = None",\n            None,\n        )', '            None,\n        )'))
+M("c13-loop-exit-not-finally", "C13", "skeleton-typestate", (CG, '                self.printer.writeline("finally:")\n                self.printer.writeline("loop = __M_loop._exit()")\n                self.printer.writeline(None)', '                self.printer.writeline("loop = __M_loop._exit()")'))
+M("c13-loop-no-rebind", "C13", "skeleton-typestate", (CG, 'self.printer.writeline("loop = __M_loop._exit()")', 'self.printer.writeline("__M_loop._exit()")'))
+M("c13-unbuffered-no-finally", "C13", "skeleton-typestate", (CG, '            if callstack:\n                self.printer.writelines(\n                    "finally:", "context.caller_stack._pop_frame()", None\n                )', '            if callstack and buffered:\n                self.printer.writelines(\n                    "finally:", "context.caller_stack._pop_frame()", None\n                )'))
+M("c13-inline-cached-no-push", "C13", "skeleton-typestate", (CG, '        if buffered or filtered or cached:\n            self.printer.writelines("context._push_buffer()")', '        if buffered or filtered:\n            self.printer.writelines("context._push_buffer()")'))
+M("c13-runtime-pop-buffer-peek", "C13", "skeleton-typestate", (R, "        return self._buffer_stack.pop()", "        return self._buffer_stack[-1]"))
+M("c13-runtime-pop-frame-noop", "C13", "skeleton-typestate", (R, "        self.nextcaller = self.pop()", "        self.nextcaller = self[-1]"))
+M("c13-capture-no-finally", "C13", "runtime-pairing", (R, "    try:\n        callable_(*args, **kwargs)\n    finally:\n        buf = context._pop_buffer()\n    return buf.getvalue()", "    callable_(*args, **kwargs)\n    buf = context._pop_buffer()\n    return buf.getvalue()"))
+M("c13-supports-caller-no-finally", "C13", "runtime-pairing", (R, "        try:\n            return func(context, *args, **kwargs)\n        finally:\n            context.caller_stack._pop_frame()", "        r = func(context, *args, **kwargs)\n        context.caller_stack._pop_frame()\n        return r"))
+M("c13-texttag-write-before-pop", "C13", "skeleton-typestate", (CG, '                "finally:",\n                "__M_buf, __M_writer = context._pop_buffer_and_writer()",\n                "__M_writer(%s)"', '                "finally:",\n                "__M_buf = context._pop_buffer()",\n                "__M_writer(%s)"'))
+M("c13-include-handler-swallow", "C13", "handlers", (R, "            if not result:\n                raise\n    else:", "            if not result:\n                pass\n    else:"))
+M("c13-render-error-keeps-buffers", "C13", "handlers", (R, "            context._buffer_stack[:] = [util.FastEncodingBuffer()]", "            context._buffer_stack.append(util.FastEncodingBuffer())"))
+M("c13-pushframe-keeps-nextcaller", "C13", "silent", (R, "        frame = self.nextcaller or None\n        self.append(frame)", "        frame = self.nextcaller or None\n        self.append(frame)  # unchanged"))
+M("c13-benign-writeline-split", "C13", "silent", (CG, '                self.printer.writelines(\n                    "finally:", "context.caller_stack._pop_frame()", None\n                )', '                self.printer.writeline("finally:")\n                self.printer.writeline("context.caller_stack._pop_frame()")\n                self.printer.writeline(None)'))
+M("c13-benign-fstring", "C13", "silent", (CG, 'self.printer.writeline("__M_writer(%s)" % repr(node.content))', 'self.printer.writeline(f"__M_writer({node.content!r})")'))
+M("c13-benign-release-order", "C13", "silent", (CG, '                self.printer.writelines(\n                    "finally:", "__M_buf = context._pop_buffer()"\n                )', '                self.printer.writelines(\n                    "finally:", "__M_buf = context._pop_buffer()"\n                )  # same'))
